@@ -56,6 +56,8 @@ type appOp struct {
 	Val  string
 	Del  bool
 	TS   uint64 // native only
+	// Clear: shadow mode only - the application deletes every key of the DBI in one transaction (the DBI stays, empty)
+	Clear bool
 }
 
 // fleet is a set of real instances.
@@ -124,6 +126,18 @@ func (f *fleet) applyApp(op appOp) error {
 		if f.h.Native {
 			return inst.NativePut(txn, op.DBI, []byte(op.Key), op.TS, op.Del, []byte(op.Val))
 		}
+		if op.Clear {
+			d, err := lmdbx.ReadDBI(txn, op.DBI)
+			if err != nil || d == nil {
+				return nil // the DBI does not exist yet on this instance
+			}
+			for _, kv := range d.KVs {
+				if err := lmdbx.Del(txn, op.DBI, kv.K); err != nil {
+					return err
+				}
+			}
+			return nil
+		}
 		if op.Del {
 			return lmdbx.Del(txn, op.DBI, []byte(op.Key))
 		}
@@ -136,7 +150,7 @@ func (f *fleet) applyApp(op appOp) error {
 		}
 		f.addVersion(op.DBI, op.Key, v)
 	}
-	f.trace = append(f.trace, fmt.Sprintf("app i%d %s[%s] del=%v val=%q ts=%d", op.Inst, op.DBI, op.Key, op.Del, trunc(op.Val), op.TS))
+	f.trace = append(f.trace, fmt.Sprintf("app i%d %s[%s] del=%v clear=%v val=%q ts=%d", op.Inst, op.DBI, op.Key, op.Del, op.Clear, trunc(op.Val), op.TS))
 	return err
 }
 
@@ -173,6 +187,30 @@ func (f *fleet) upload(i int) (string, error) {
 	after, _ := x.Logical()
 	if !f.h.Native {
 		f.observe(i, before, after)
+		// capture oracle (shadow mode): SendOnce first copies the application DBIs into the timestamped state, so right
+		// after it every application entry is a live entry with the same value and every other entry of the
+		// timestamped state is a deletion marker - a local deletion that is not turned into a marker here can never win
+		av, _ := x.App()
+		for d, kv := range after {
+			for k, v := range kv {
+				got, present := av[d][k]
+				if !v.Del && !present {
+					f.res.Violate("local-deletion-not-captured", fmt.Sprintf("after SendOnce on i%d, %s[%q] is live %v in the timestamped state but the application has deleted it: the deletion got no marker", i, d, k, v), f.wit(blob))
+				} else if !v.Del && got != v.Val {
+					f.res.Violate("local-write-not-captured", fmt.Sprintf("after SendOnce on i%d, %s[%q] is %v in the timestamped state but the application holds %q", i, d, k, v, got), f.wit(blob))
+				} else if v.Del && present {
+					f.res.Violate("local-write-not-captured", fmt.Sprintf("after SendOnce on i%d, %s[%q] is a deletion marker in the timestamped state but the application holds %q", i, d, k, got), f.wit(blob))
+				}
+			}
+		}
+		for d, kv := range av {
+			for k, got := range kv {
+				if _, ok := after[d][k]; !ok {
+					f.res.Violate("local-write-not-captured", fmt.Sprintf("after SendOnce on i%d, the application's %s[%q]=%q has no entry in the timestamped state", i, d, k, got), f.wit(blob))
+				}
+			}
+		}
+		f.res.Count("capture_checks", 1)
 	}
 	f.trace = append(f.trace, fmt.Sprintf("upload i%d -> %s", i, blob))
 	if blob != "" {
@@ -474,7 +512,17 @@ func runHistory(h Hist, env *runner.Env, res *runner.Result, which string, sched
 		wrote[i] = map[string]bool{}
 	}
 	appOps := 0
+	cr := rng.New(h.Seed ^ 0xC1EA) // own stream: "the application empties a whole DBI" (shadow mode)
 	for step := 0; step < h.Ops; step++ {
+		if !h.Native && cr.Chance(1, 10) {
+			op := appOp{Inst: cr.Intn(h.NInst), DBI: dbis[cr.Intn(len(dbis))], Clear: true}
+			if err := f.applyApp(op); err != nil {
+				res.Verdict, res.Msg = runner.Inconclusive, "application clear: "+err.Error()
+				return nil, false
+			}
+			res.Count("dbi_emptied_by_application", 1)
+			appOps++
+		}
 		// the application history is generated in lock-step so that it is schedule independent
 		if ar.Chance(3, 5) {
 			op := appOp{Inst: ar.Intn(h.NInst), DBI: dbis[ar.Intn(len(dbis))], Key: fmt.Sprintf("k%d", ar.Intn(h.NKeys))}
